@@ -3,6 +3,7 @@ package meta
 import (
 	"errors"
 	"fmt"
+	"sort"
 
 	"github.com/freeconf/yang/val"
 )
@@ -243,6 +244,10 @@ func (c *compiler) identity(y *Identity) error {
 		}
 		y.base = append(y.base, identity)
 		identity.derived = append(identity.derived, y)
+		// identities are compiled in map order, which differs from run to run
+		sort.Slice(identity.derived, func(i, j int) bool {
+			return identity.derived[i].ident < identity.derived[j].ident
+		})
 		if err := c.compile(identity); err != nil {
 			return err
 		}
